@@ -97,8 +97,8 @@ Print Assumptions Known_raw_as_ethernet_refuted.
    every call was reported Queued or Dropped; the packets analysed are exactly (as a multiset) the packets
    reported Queued -- each once, none of the dropped ones; total_dropped = number of Dropped outcomes;
    total_dispatched obeys the pool's law (TCP: = Queued; HTTP: = calls; TLS: = calls - discarded);
-   worker_dropped[w] = Dropped outcomes routed to w, plus -- HTTP only -- the queued packets whose analysis
-   returned Err on w (known class); outside that class stats() agrees with the returned outcomes.
+   worker_dropped[w] = Dropped outcomes routed to w, in all three pools (since fix 93cdf08 also HTTP), whatever
+   the analyses return: stats() agrees with the outcomes the dispatch calls returned, unconditionally.
    Level: proof, partial -- atomics are sequentially consistent steps of this model, crossbeam channels are
    FIFO lists, real thread interleavings are only sampled by the harness. *)
 Theorem C18_accounting :
@@ -111,10 +111,8 @@ Theorem C18_accounting :
       /\ Permutation (queued_packets P St x) (analysed_packets P St x)
       /\ c_dropped P St x = n_dropped P St x
       /\ dispatched_law_b P St kind x = true
-      /\ (forall w, (w < nw)%nat ->
-            nth w (c_wdropped P St x) 0
-            = dropped_at P St x w + match kind with PHttp => errors_at P St x w | _ => 0 end)
-      /\ (http_error_counted P St kind x = false -> stats_agree_b P St nw x = true).
+      /\ (forall w, (w < nw)%nat -> nth w (c_wdropped P St x) 0 = dropped_at P St x w)
+      /\ stats_agree_b P St nw x = true.
 Proof. exact accounting. Qed.
 Check C18_accounting :
   forall (P St : Type) (shard : P -> option nat) (analyse : St -> P -> St * bool) (kind : pool_kind) (nw : nat),
@@ -126,10 +124,8 @@ Check C18_accounting :
       /\ Permutation (queued_packets P St x) (analysed_packets P St x)
       /\ c_dropped P St x = n_dropped P St x
       /\ dispatched_law_b P St kind x = true
-      /\ (forall w, (w < nw)%nat ->
-            nth w (c_wdropped P St x) 0
-            = dropped_at P St x w + match kind with PHttp => errors_at P St x w | _ => 0 end)
-      /\ (http_error_counted P St kind x = false -> stats_agree_b P St nw x = true).
+      /\ (forall w, (w < nw)%nat -> nth w (c_wdropped P St x) 0 = dropped_at P St x w)
+      /\ stats_agree_b P St nw x = true.
 Print Assumptions C18_accounting.
 
 (* hypotheses satisfiable: a TCP pool with two workers and two interleaved dispatchers, one overflow *)
@@ -145,15 +141,11 @@ Proof.
   - vm_compute. repeat split; reflexivity.
 Qed.
 
-(* known class (open finding C18-http-error-as-drop): a packet reported Queued, analysed once, whose analysis
-   returns Err, is counted in worker_dropped: the statistics do not agree with the outcomes *)
-Lemma Known_http_error_counted_refuted :
-  exists (es : list (ev nat)),
-    let x := run_events nat unit (fun _ => Some 0%nat) (fun s _ => (s, true)) PHttp (init nat unit 1 1 tt) es in
-    quiescent nat unit x = true /\ http_error_counted nat unit PHttp x = true /\
-    n_dropped nat unit x = 0 /\ c_wdropped nat unit x = [1] /\ stats_agree_b nat unit 1 x = false.
-Proof.
-  exists [Call 0 5%nat; Tick 0 false; Tick 0 false; Work 0].
-  destruct http_error_counted_refutes_agreement as (H1 & H2 & H3 & H4 & H5 & H6 & H7). repeat split; assumption.
-Qed.
-Print Assumptions Known_http_error_counted_refuted.
+(* the former known class (C18-http-error-as-drop, fixed by 93cdf08): an HTTP packet reported Queued whose
+   analysis returns Err leaves every counter alone *)
+Example C18_http_error_not_counted :
+  let x := run_events nat unit (fun _ => Some 0%nat) (fun s _ => (s, true)) PHttp (init nat unit 1 1 tt)
+             [Call 0 5%nat; Tick 0 false; Tick 0 false; Work 0] in
+  quiescent nat unit x = true /\ analysed nat unit x = [(0%nat, 5%nat, true)] /\
+  n_dropped nat unit x = 0 /\ c_wdropped nat unit x = [0] /\ stats_agree_b nat unit 1 x = true.
+Proof. destruct http_error_not_counted as (H1 & H2 & H3 & H4 & H5 & H6 & H7). repeat split; assumption. Qed.
